@@ -26,8 +26,9 @@
   universal form `IdnaSane o` implies each of them (`IdnaSane.at`).  The differential harness answers
   the oracle from the real `idna` package for every host it generates, so `IdnaSaneAt` restricted to the
   answers actually used in a run is a finite, decidable check (`IdnaAnswerSane` is `Decidable`) that the
-  harness COULD perform on its oracle table (not implemented; likewise `IdnaRoundTripAt` for every stored
-  raw host whose `host` accessor the run evaluates).  The universal form `IdnaSane` is an idealisation.
+  harness PERFORMS on its oracle table (`harness/core.py`, `check_oracle_assumption`: every answer of a run is tested
+  against `IdnaAnswerSane` / `IdnaRoundTripAt` and the outcome is written into the evidence; answers outside the assumption —
+  e.g. the stdlib codec's "a/b" for "a／b" — only limit the domain of the per-host theorems).  The universal form `IdnaSane` is an idealisation.
   Probed with idna 3.13 / CPython 3.11: for hosts whose ASCII part is LDH text the answers are LDH text; but
   the package refuses other ASCII characters and the stdlib fallback passes them through unchanged —
     * "ü%zz" ↦ "xn--%zz-goa": not reg-name text; harmless for C03 / C04 / C09 (`C16_idn_needs_regname`);
